@@ -1,22 +1,23 @@
 //@ unit domser_cdata_split
 //@ props C12 C01
 //@ kind W
-//@ def quick NV=6 NOUT=44 VERIF_ALLOC_MAX=20
-//@ def thorough NV=7 NOUT=44 VERIF_ALLOC_MAX=22
-//@ cbmc all --unwind 12 --unwindset DOMLSSerializerImpl_procCdataSection.0:5,XMLString_patternMatch.0:30,spec_read_output.1:46 --unwinding-assertions
+//@ def quick NV=6 NRECON=8 VERIF_ALLOC_MAX=20
+//@ def thorough NV=8 NRECON=10 VERIF_ALLOC_MAX=24
+//@ cbmc all --unwind 12 --unwindset DOMLSSerializerImpl_procCdataSection.0:5,XMLString_patternMatch.0:22 --unwinding-assertions
 //@ entry h_cdata_split
 //@ note W: complete for every CDATA node value of length <= NV over the alphabet { ']', '>', 'a', '<' } (split-cdata-sections = true); all loops (stringLen, copyString, catString, patternMatch, the split loop) are the real text, fully unwound, unwinding assertions on
-//@ note stubs (contracts/domser_stubs.inc): the XMLFormatter sink appends to OUT[] and remembers the escape mode; reportError records (severity, code, node); fMemoryManager->allocate is verif_alloc = exactly the requested number of bytes at the END of a pool object (so that one element past `len + 3 + 1` is an out-of-bounds dereference); the ArrayJanitor (release at scope exit) is dropped; procUnrepCharInCdataSection is a stub that forwards a non-empty argument to the sink as one CDATA section (what the real one does when every character is representable: unit domser_unrep_cdata)
+//@ note stubs (contracts/domser_stubs.inc): the XMLFormatter sink feeds a streaming reader of the output and remembers the escape mode; reportError records (severity, code, node); fMemoryManager->allocate is verif_alloc = exactly the requested number of bytes at the END of a pool object (so that one element past `len + 3 + 1` is an out-of-bounds dereference); the ArrayJanitor (release at scope exit) is dropped; procUnrepCharInCdataSection is a stub that forwards a non-empty argument to the sink as one CDATA section (what the real one does when every character is representable: unit domser_unrep_cdata)
 //@ note spec = a reader of the output (XML 1.0 productions [18]-[21]: CDSect ::= '<![CDATA[' CData ']]>' where CData contains no ']]>'): the output must be a sequence of complete CDATA sections whose contents, concatenated, are the node value (C12: "equal up to the division of character data between adjacent CDATA nodes where a section had to be split")
 #define VERIF_DEFINE_GHOSTS
 #include "verif_prelude.h"
 //@ enum src/xercesc/dom/DOMError.hpp ErrorSeverity DOMError_ scope=DOMError
 //@ enum src/xercesc/util/XMLDOMMsg.hpp Codes XMLDOMMsg_ scope=XMLDOMMsg
 //@ enum src/xercesc/framework/XMLFormatter.hpp EscapeFlags XMLFormatter_ scope=XMLFormatter
+//@ enum src/xercesc/framework/XMLFormatter.hpp UnRepFlags XMLFormatter_ scope=XMLFormatter
 typedef struct DOMNode { int tag; } DOMNode;
-//@ include domser_stubs.inc
 //@ table src/xercesc/dom/impl/DOMLSSerializerImpl.cpp gStartCDATA
 //@ table src/xercesc/dom/impl/DOMLSSerializerImpl.cpp gEndCDATA
+//@ include domser_stubs.inc
 
 /*@extract src/xercesc/util/XMLString.hpp XMLString::stringLen
 params const XMLCh* const src
@@ -49,30 +50,8 @@ sub reportError\( => SER_reportError(
 sub procUnrepCharInCdataSection\( => SER_procUnrep(
 @*/
 
-/* XML 1.0 [19] CDStart and [21] CDEnd, spelled here (not taken from the code's tables) */
-static const XMLCh SPEC_CDSTART[9] = { '<', '!', '[', 'C', 'D', 'A', 'T', 'A', '[' };
 struct { XMLCh a[NV + 1]; } VAL;
 DOMNode NODE_TAG;
-
-/* reference reader of the output: top level accepts only CDStart; inside a section everything up to the FIRST ']]>' is content */
-struct { XMLCh a[NOUT]; } RECON; XMLSize_t RL, SECTIONS; int WF;
-static void spec_read_output(void)
-{
-  int inside = 0; XMLSize_t skip = 0; RL = 0; SECTIONS = 0; WF = 1;
-  for (XMLSize_t i = 0; i < NOUT; i++) {
-    if (i >= OUTLEN) break;
-    if (skip > 0) { skip--; continue; }
-    if (!inside) {
-      int m = (i + 9 <= OUTLEN);
-      for (XMLSize_t k = 0; k < 9; k++) if (m && OUT.a[i + k] != SPEC_CDSTART[k]) m = 0;
-      if (m) { inside = 1; skip = 8; SECTIONS++; } else WF = 0;
-    } else {
-      if (i + 3 <= OUTLEN && OUT.a[i] == ']' && OUT.a[i + 1] == ']' && OUT.a[i + 2] == '>') { inside = 0; skip = 2; }
-      else RECON.a[RL++] = OUT.a[i];
-    }
-  }
-  if (inside || skip) WF = 0;
-}
 
 void h_cdata_split(void)
 {
@@ -93,14 +72,14 @@ void h_cdata_split(void)
   for (XMLSize_t k = 0; k + 3 <= NV; k++) if (k + 3 <= n && s[k] == ']' && s[k + 1] == ']' && s[k + 2] == '>') nested = 1;
   if (nested) VERIF_CANARY("a value containing the CDATA end marker is reachable");
 
-  spec_read_output();
-  int wf = WF; XMLSize_t rl = RL, sections = SECTIONS;
+  int wf = RD_WF && RD_STATE == RD_TOP; XMLSize_t rl = RL, sections = RD_SECTIONS;
 
-  __CPROVER_assert(!OUT_OVERFLOW, "C01: harness output array large enough (no write dropped)");
-  __CPROVER_assert(ALLOC_COUNT == 1, "C01: exactly one temporary buffer is requested");
+  SINK_check_tables();
+  __CPROVER_assert(!RECON_OVER, "C12: no more character data comes out than went in (harness array large enough)");
+  __CPROVER_assert(ALLOC_COUNT == 1 && ALLOC_BYTES == (n + 3 + 1) * sizeof(XMLCh), "C01: one temporary buffer of len + 3 + 1 elements is requested");
   for (XMLSize_t k = 0; k <= NV; k++) __CPROVER_assert(VAL.a[k] == before[k], "C01: the node value itself is not modified");
   __CPROVER_assert(!SINK_ESCAPED, "C12: CDATA markup and content are written with NoEscapes");
-  __CPROVER_assert(wf, "C12: the output is a sequence of complete CDATA sections (no section content contains ']]>', nothing outside a section)");
+  __CPROVER_assert(wf, "C12: the output is a sequence of complete CDATA sections (read as a parser does -- a section ends at the FIRST ']]>' --, nothing outside a section, nothing unterminated)");
   __CPROVER_assert(!wf || rl == n, "C12: the contents of the emitted CDATA sections, concatenated, have the length of the node value (nothing lost, nothing added)");
   if (wf && rl == n) for (XMLSize_t k = 0; k < NV; k++) if (k < n) __CPROVER_assert(RECON.a[k] == s[k], "C12: the contents of the emitted CDATA sections, concatenated, are the node value");
   __CPROVER_assert(n == 0 || sections >= 1, "C12: a non-empty value produces at least one section");
